@@ -73,6 +73,11 @@ func (i MessageIntegrity) AddTo(msg *Message) error {
 	// including the header, up to and including the attribute preceding the
 	// MESSAGE-INTEGRITY attribute.
 	length := msg.Length
+	// Bytes after the declared length (tolerated by Decode) are not part of
+	// the message: cut them, as Add does, so they are not covered by the MAC.
+	last := messageHeaderSize + int(length)
+	msg.grow(last)
+	msg.Raw = msg.Raw[:last]
 	// Adjusting m.Length to contain MESSAGE-INTEGRITY TLV.
 	msg.Length += messageIntegritySize + attributeHeaderSize
 	msg.WriteLength()                                // writing length to m.Raw
